@@ -103,6 +103,10 @@ func c04Eval(c c04Case) (ok bool, sig, detail string) {
 			if !d0ok {
 				continue // reached an ill-formed state in an excluded (ambiguous) step
 			}
+			// "a full-length feature stays full-length": the same contiguous range, markers and strand, whatever the rotation
+			if fullLengthRange(loc, L) && !(fullLengthRange(f.Loc, L) && d0.Equal(obs)) {
+				return false, "full-length-split", what + " is no longer the full-length range"
+			}
 			exp := d0.MapRotate(n, L).CanonCircle(L)
 			obsC := obs.CanonCircle(L)
 			if !exp.Equal(obsC) {
